@@ -135,7 +135,7 @@ Theorem C04_sm_decode :
   decode_message (w_esm f) codec (w_sm f) = Ok (short, opts0) ->
   tlvs_meaning (w_esm f) codec tl opts0 [] = Ok (opts, payload) ->
   smpp_to_time (w_sched f) = Ok sch -> smpp_to_time (w_valid f) = Ok val ->
-  (short = [] /\ payload <> []) \/ (short <> [] /\ payload = []) ->
+  (short = [] \/ payload = []) ->
   let pdu := spec_pdu cmd 0 seq (spec_sm_body f) in
   exists h, parse_header pdu = Ok h /\ decode default pdu h = Ok (MSm cmd (sm_of seq f default codec short payload opts sch val)).
 Proof. exact sm_decode_spec. Qed.
